@@ -144,7 +144,7 @@ def _run_one(case, ctx):
     m = recipes.fresh(case["recipe"])
     if adapters.is_leaf(m):
         raise monitor.OutOfScope()
-    common.domain(m)
+    common.domain(m, recipe=case["recipe"])
     import zlib
     pre = zlib.crc32(repr(case["recipe"]).encode()) % 4
     if pre == 0:
